@@ -1,13 +1,162 @@
 //! C01 — write→read round trip preserves every tile, the metadata and header settings.
 
 use crate::checks::common::{absent_probes, compare_open_sync, logical_for, stored_coords, write_async, write_sync};
+use crate::gen::{self, Logical};
 use crate::obs::{guard, Ctx};
 use crate::refimpl as R;
-use pmtiles2::PMTiles;
+use crate::rng::Rng;
+use pmtiles2::{Directory, PMTiles};
 use serde_json::json;
+
+/// Every other tile first (a third of the rest temporarily bound to their left neighbour's bytes, so that
+/// the saved archive holds runs), save, reopen, then every remaining tile with its final bytes.
+fn two_sessions(l: &Logical, rng: &mut Rng) -> std::io::Result<Vec<u8>> {
+    let mut pm = PMTiles::new(gen::ttype(l.tile_type), gen::comp(l.tile_compression));
+    l.apply_settings(&mut pm);
+    let ids: Vec<u64> = l.tiles.keys().copied().collect();
+    let mut later: Vec<u64> = Vec::new();
+    for (k, id) in ids.iter().enumerate() {
+        if k % 2 == 0 {
+            pm.add_tile(*id, l.tiles[id].as_ref().clone())?;
+        } else {
+            later.push(*id);
+            if rng.chance(1, 3) {
+                pm.add_tile(*id, l.tiles[&ids[k - 1]].as_ref().clone())?;
+            }
+        }
+    }
+    let bytes = write_sync(pm)?;
+    let mut pm = PMTiles::from_bytes(bytes)?;
+    l.apply_settings(&mut pm);
+    for id in later {
+        pm.add_tile(id, l.tiles[&id].as_ref().clone())?;
+    }
+    write_sync(pm)
+}
+
+/// Tile lengths for ids 0..n such that the FIRST leaf directory the library writes (4096 entries, one per
+/// id, contents back to back) has exactly `want` bytes with this codec, so that the second leaf starts at
+/// leaf-section offset `want`. With want = 127 a leaf-relative offset equals the root's absolute offset.
+fn steer_first_leaf(codec: u8, want: usize, rng: &mut Rng) -> Option<Vec<u32>> {
+    let comp = gen::comp(codec);
+    let size = |lens: &[u32]| -> usize {
+        let mut off = 0u64;
+        let entries: Vec<pmtiles2::Entry> = lens
+            .iter()
+            .enumerate()
+            .map(|(i, l)| {
+                let e = pmtiles2::Entry { tile_id: i as u64, offset: off, length: *l, run_length: 1 };
+                off += u64::from(*l);
+                e
+            })
+            .collect();
+        let mut v = Vec::new();
+        match Directory::from(entries).to_writer(&mut v, comp) {
+            Ok(()) => v.len(),
+            Err(_) => usize::MAX,
+        }
+    };
+    let mut lens = vec![2u32; 4096];
+    let mut cur = size(&lens);
+    if cur > want {
+        return None;
+    }
+    for _ in 0..6000 {
+        if cur == want {
+            return Some(lens);
+        }
+        let at = rng.usize(0, lens.len() - 1);
+        let old = lens[at];
+        lens[at] = rng.range(2, 32) as u32;
+        let s = size(&lens);
+        if s > want {
+            lens[at] = old;
+        } else {
+            cur = s;
+        }
+    }
+    None
+}
+
+fn steered_leaf_alias(ctx: &mut Ctx, case: u64, codec: u8) {
+    let mut rng = ctx.rng("c01.steer", case);
+    let Some(first) = steer_first_leaf(codec, 127, &mut rng) else {
+        ctx.count("steered_first_leaf_not_reached");
+        return;
+    };
+    // the steered leaf, then ~30k high-entropy entries so that the directory does not fit the root with any codec
+    let mut tiles = std::collections::BTreeMap::new();
+    for id in 0..4096u64 {
+        let len = first[id as usize] as usize;
+        let mut c = rng.bytes(len.max(2));
+        c[0] = id as u8;
+        c[1] = (id >> 8) as u8;
+        if len >= 3 {
+            c[2] = 0x5A;
+        }
+        tiles.insert(id, std::rc::Rc::new(c));
+    }
+    let mut id = 4096u64;
+    for j in 0..30_000u32 {
+        let len = rng.usize(3, 48);
+        let mut c = rng.bytes(len);
+        c[0] = j as u8;
+        c[1] = (j >> 8) as u8;
+        c[2] = (j >> 16) as u8;
+        tiles.insert(id, std::rc::Rc::new(c));
+        id += 1 + rng.log_range(1, 1 << 18);
+    }
+    let mut l = gen::gen_logical(&mut rng, gen::SizeClass::One, codec);
+    l.tiles = tiles;
+    l.class = String::from("SteeredLeaf127");
+    if l.distinct_contents() != l.tiles.len() {
+        ctx.count("steered_first_leaf_not_reached");
+        return;
+    }
+    let mat = l.describe();
+    let bytes = match guard(|| write_sync(l.build())) {
+        Ok(Ok(b)) => b,
+        Ok(Err(e)) => {
+            ctx.violation("PMTiles::to_writer", "write-error", "writing a valid archive failed", &e.to_string(), mat);
+            return;
+        }
+        Err(p) => {
+            ctx.panic("PMTiles::to_writer", &p, mat);
+            return;
+        }
+    };
+    let aliased = R::walk(&bytes, &R::WalkLimits::default(), false)
+        .map(|(_, w)| w.pointers.iter().filter(|(_, p)| p.offset == 127).count())
+        .unwrap_or(0);
+    if aliased == 0 {
+        ctx.count("steered_first_leaf_not_reached");
+        return;
+    }
+    ctx.count("archives_with_leaf_at_section_offset_127");
+    ctx.case(l.fingerprint(), true);
+    let probes = absent_probes(&l, &mut rng, 50);
+    let stored = R::header_unpack(&bytes).ok().map(|h| stored_coords(&h));
+    match guard(|| PMTiles::from_bytes(bytes.clone())) {
+        Err(p) => ctx.panic("PMTiles::from_bytes", &p, mat),
+        Ok(Err(e)) => ctx.violation("PMTiles::from_bytes", "open-error", "opening the written bytes failed", &e.to_string(), mat),
+        Ok(Ok(mut pm)) => match guard(|| compare_open_sync(&mut pm, &l, stored, &probes)) {
+            Err(p) => ctx.panic("PMTiles::get_tile_by_id", &p, mat),
+            Ok(Err(e)) => ctx.violation("write→read", "tiles", "tile set or tile content differs after a round trip", &e, mat),
+            Ok(Ok(())) => ctx.count("round_trips_equal"),
+        },
+    }
+}
 
 pub fn run(ctx: &mut Ctx) {
     let n = ctx.n(640, 20_000);
+    for (j, codec) in [R::C_GZIP, R::C_BROTLI, R::C_ZSTD].into_iter().enumerate() {
+        let case = n + j as u64;
+        if ctx.mine(case) && !(crate::hostile::NO_ZSTD.load(std::sync::atomic::Ordering::Relaxed)) {
+            ctx.begin(case);
+            steered_leaf_alias(ctx, case, codec);
+            ctx.end(case);
+        }
+    }
     for i in 0..n {
         if !ctx.mine(i) {
             continue;
@@ -21,6 +170,11 @@ pub fn run(ctx: &mut Ctx) {
         let written = if asyncw {
             let pm = l.build_async();
             guard(|| write_async(pm))
+        } else if i % 7 == 5 && l.tiles.len() >= 3 {
+            // same logical archive, built in two sessions with a save + reopen in between: tiles are added
+            // next to (and over) tiles that are still backed by the opened archive
+            ctx.count("archives_built_in_two_sessions");
+            guard(|| two_sessions(&l, &mut rng))
         } else if i % 3 == 1 {
             // same logical archive, reached through detours (re-adds of identical bytes, replaced junk, removed extras)
             ctx.count("archives_built_through_detours");
